@@ -102,7 +102,7 @@ ssize_t __wrap_write(int fd, const void *buf, size_t n) {
     if(match_fd(kill_fd, fd) && kill_fd != -100) {
         kill_seen++;
         if(kill_seen == kill_nth) {
-            size_t k = kill_bytes < 0 || (size_t)kill_bytes > n ? n : (size_t)kill_bytes;
+            size_t k = kill_bytes == -2 ? n / 2 : (kill_bytes < 0 || (size_t)kill_bytes > n ? n : (size_t)kill_bytes);
             if(k) { ssize_t w = __real_write(fd, buf, k); (void)w; }
             _exit(99);
         }
